@@ -152,3 +152,14 @@ proof('C17', 'Every clause is machine-checked (kernel only) for EVERY finite lin
       '(hsl_roundtrip / api_hsl_roundtrip, proved bound 5.5e-6: the chroma recomputed by the inverse uses the SAME denominator bit for bit, so division and multiplication cancel whatever its size; the fmod is exact; the float sextant selection equals the closed-form 1-Lipschitz hexcone ramps; '
       'the hue error is of order (rounding + 1.2e-7/chroma) and is multiplied back by the chroma); L = 0 decodes to exactly black and L = 1 to exactly white for every finite hue in [0,360) and saturation in [0,1] (black_white). Pixels are assumed to be f32 bit patterns (below 2^32), as every f32 is.',
       'Lean 4 real-semantics proofs (monotone/exact rounding, exact fmod, max/min, hexcone model with Lipschitz ramps); correspondence ties the model to the code')
+
+proof('C18', 'Machine-checked by the Lean kernel alone (no native evaluation), fastmath build, both FMA modes. powf_accurate: for EVERY positive normal x and every finite y with |y| <= 80 whose true result x^y lies in [1e-35, 1e35], powf returns a finite value '
+      'with relative error <= 2.5e-4 + 8e-6|y| against the real power. expf_accurate: relative error <= 1e-5 against the real exponential for every finite argument of [-85, 85]. Building blocks (also stated): exp2 within relative 1.734e-4 of 2^x on [-124,124] and within 9.1e-7 on integer and [0,1] '
+      'arguments (exp2_accurate), log2 within 1.14e-5 + 2^-24|log2 x| of the real logarithm for every positive normal x (log2_accurate). How: the degree-5 polynomials are compared with 2^f (Taylor polynomial of exp with Mathlib\'s explicit remainder, log 2 to 9 digits) and with log2 m (m=(1+z)/(1-z), odd series with '
+      'Mathlib\'s remainder) by exact-rational polynomial sign certificates on cells with adaptive bisection (Proofs/PolyCert.lean: every real point of the interval lies in a checked cell; `decide +kernel` re-evaluates them on the coefficients REGENERATED from the source, so a changed coefficient is re-proved or breaks a named '
+      'certificate); the Horner rounding error is a rational computed from the coefficient bit patterns with interval enclosures of the partial sums on 16 pieces of [1,2) (Proofs/Horner.lean); the integer/fraction split of exp2 (truncating to_int_unchecked, i32->f32, the exponent-field construction of 2^i), floor, and every '
+      'rounding are followed through the softfloat semantics. cbrtf_accurate: for EVERY normal argument of either sign the result is finite and within relative 2^-24 + 1e-11 of the real cube root (<= 1 ulp except within 1.7e-4 below a power of two, where the bound reads 1.0002 ulp). Totality: for every bit pattern exp2 feeds '
+      'to_int_unchecked a finite value in [-128,129], so powf, expf and every curve return a value (exp2_total, powf_total, expf_total, curve_total). NOT proved as theorems: bit-exact oddness of cbrtf and the saturation clauses of expf (+inf for 89 <= x <= 1e38, 0 for -1e38 <= x <= -88); these two rest on the bit-exact '
+      'correspondence and the oracle (all 2^32 arguments in the thorough tier). With fastmath off the helpers are the libm parameter of the model.',
+      'Lean 4: kernel-checked polynomial sign certificates + Taylor/series remainders from Mathlib + rounding-error analysis over the reals (powf, expf, exp2, log2, cbrtf), totality by case analysis; correspondence ties the model to the code')
+
